@@ -38,6 +38,8 @@ CONFIGS = {
                 crates=["emit", "emit_core"]),
     # batcher without tokio
     "K3": dict(args=["check", "-p", "emit_batcher"], crates=["emit_batcher"]),
+    # the OTLP emitter without its default features (no gzip, no tls): the `#[cfg(not(feature = ..))]` arms of the HTTP layer
+    "K5": dict(args=["check", "-p", "emit_otlp", "--no-default-features"], crates=["emit_otlp"]),
 }
 
 
